@@ -91,6 +91,8 @@ func keyPEM(k *ecdsa.PrivateKey) []byte {
 
 func certPEM(der []byte) []byte { return pem.EncodeToMemory(&pem.Block{Type: "CERTIFICATE", Bytes: der}) }
 
+var netDialer10s = net.Dialer{Timeout: 10 * time.Second}
+
 // APIServer is a real gRPC API service of Dirk on 127.0.0.1 in front of a real world.
 type APIServer struct {
 	Addr   string
@@ -354,6 +356,15 @@ func (a *APIServer) Dial(ctx context.Context, cred string) (*grpc.ClientConn, er
 		switch {
 		case strings.HasPrefix(cred, "selfsigned-"):
 			c, err = leaf(a.PKI, strings.TrimPrefix(cred, "selfsigned-"), true, false)
+		case strings.HasPrefix(cred, "ticket-otherca-"):
+			// other-authority certificate plus a self-minted session ticket (ticket.go)
+			c, err = leaf(a.Other, strings.TrimPrefix(cred, "ticket-otherca-"), false, false)
+			if err == nil {
+				var tcfg *tls.Config
+				if tcfg, err = a.forgedTicketConfig(ctx, c); err == nil {
+					return grpc.NewClient(a.Addr, grpc.WithTransportCredentials(credentials.NewTLS(tcfg)))
+				}
+			}
 		case strings.HasPrefix(cred, "otherca-"):
 			c, err = leaf(a.Other, strings.TrimPrefix(cred, "otherca-"), false, false)
 		case strings.HasPrefix(cred, "expired-"):
